@@ -264,7 +264,12 @@ func k5(r *rng.R, i int, o *out.W) {
 		if r.Bool() {
 			h = -h
 		}
-		if r.Bool() {
+		if r.P(1, 6) {
+			// control point on the line through the end points, before the start: the curve first runs backwards and folds; its
+			// length is 2.6 (1.25) times the chord
+			fam += "f"
+			p.QuadTo(x-w*rng.Pick(r, []float64{2, 0.5}), y, x+w, y)
+		} else if r.Bool() {
 			fam += "q"
 			p.QuadTo(x+w*float64(r.Range(1, 3))/4, y+h, x+w, y)
 		} else {
